@@ -31,6 +31,11 @@ CHECKS = {
          "Continuous quantifier: the claim is bounded-exhaustive over a finite lattice of packings - every first-listed setting plus 40 further numbers in all their settings (thorough: all 530), molecules {H2O, CO, CO2, CH4} incl. index orders that force the bond walk from higher to lower indices, Z' in {1, 2 equal, 2 different}, centres straddling 0..3 cell faces: partition, lattice-translate, internal geometry, centre of mass, count, coincidence with the exact images, unique-molecule cover, labelling and periodic bond graph with cell offsets.",
          "Cases violating the property's precondition (contacts < bonding threshold + 0.5 A, special positions) are skipped and counted; covalent radii and masses read from the library table as data.",
          "2/C04"),
+ "C13": ("model_checking",
+         "bounded enumeration of re-expression chains: all words over {H,R} up to length 3 (4) from both settings x 7 R groups x cells x asymmetric units; supercell sizes x 2 routes x settings; oracle = bidirectional coincidence of the infinite arrangements modulo the lattices",
+         "P1/supercells: all 230 first-listed settings (thorough: 530) x molecular crystals x sizes {(1,1,1),(2,1,1),(1,2,3)} (+ all 27 sizes for 10 settings) x both API routes x standard / rotated lattice-vector frame; trigonal switch: 7 groups x 3 (a,c) x 3 asymmetric units incl. special positions (+ bundled R3c) x every word over {H,R} of length <= 3 from either setting, with round-trip, density, volume-ratio and metric checks.",
+         "Coincidence tolerance 1e-6 A over lattice translates within +-2 cells; special sites kept away from the merge tolerance; cases failing the C04 precondition skipped.",
+         "2/C13"),
 }
 
 ALL = ["C%02d" % i for i in range(1, 21)]
